@@ -53,6 +53,15 @@ func xsOf(name string, logN int) ring.DistributionParameters {
 
 func init() {
 	extraCases = append(extraCases, domainSwitchCases)
+	// c04.go (same package, initialised first) registers the monitor: document the two added families there
+	if m := eng.Get("C04"); m != nil {
+		m.Rule += " | ringswap/ cases = (conjugate-invariant logN 4..7, standard ring of twice the degree, 1..5 Q primes and 0..2 P primes of mixed sizes, independent P of the conjugate-invariant parameters, secret distributions); keys from GenEvaluationKeysForRingSwapNew with drawn (LevelQ, LevelP, w, Compressed); ckks.DomainSwitcher.ComplexToReal / RealToComplex on fresh encryptions of messages uniform modulo Q_level at levels <= key level; the phase under the target secret is compared with the exact fold / unfold of the message; level, scale (doubled / unchanged) and metadata are checked exactly. packing/ cases = (logN_max 4..8, MinLogN 4..logN_max-1 or a single ring, 1..5 Q primes, 0..2 P primes, key LevelQ/LevelP/w); rlwe.RingPackingEvaluator Split(New), Merge(New), Expand, Pack, Extract(Naive), Repack(Naive) and the documented compositions Extract->RepackNaive, ExtractNaive->Repack, with the keys of GenRingSwitchingKeys / GenExtractEvaluationKeys / GenRepackEvaluationKeys and with exactly GaloisElementsForPack(params, inputLogGap); messages uniform modulo Q_level, every output judged in the phase domain under the per-degree secret. distinct key = (entry point, chain sizes, degrees, key levels, w, ct level, variant: logGap / inputLogGap / zeroGarbageSlots / naive / number of indices); non-trivial as above (bound < Q_level/8)."
+		m.Assumptions = append(m.Assumptions,
+			"ring swap: ComplexToReal noise <= 2*(B_e + key-switch bound) (fold adds the polynomial to its conjugate), RealToComplex noise <= B_e + key-switch bound; target l1 norm of the unfolded conjugate-invariant secret <= 2*|s|_1",
+			"ring packing: Split/Merge add one key-switch bound of the larger ring; Expand and Pack double the surviving noise at each of their s steps and add one automorphism: (2^s - 1) key-switch bounds on top of the input noise; RepackNaive adds the input noises of one residue class",
+			"Pack with zeroGarbageSlots=false is only exercised on index sets made of multiples of 2^v (v = valuation of the smallest gap) and judged on the positions divisible by 2^v (getMinimumGap documents that the rest is discarded)",
+		)
+	}
 }
 
 func domainSwitchCases(tier string, seed int64) []eng.Case {
